@@ -523,8 +523,11 @@ func (s *UtxoStore) GetAddresses(tx mwdb.ReadTransaction, walletId string) ([]*A
 func (s *UtxoStore) insertUnminedInputs(tx mwdb.DBTransaction, rec *TxRecord) error {
 	nsUnminedInputs := tx.FetchBucket(s.bucketMeta.nsUnminedInputs)
 
-	for _, rel := range rec.RelevantTxIn {
-		prevOut := &rec.MsgTx.TxIn[rel.Index].PreviousOutPoint
+	// record every input, not only the wallet's own coins: removeConflict follows these
+	// entries to find the unconfirmed descendants of a double-spent transaction, and
+	// Rollback / deleteUnminedInputs already treat all inputs alike.
+	for _, input := range rec.MsgTx.TxIn {
+		prevOut := &input.PreviousOutPoint
 		k := canonicalOutPoint(&prevOut.Hash, prevOut.Index)
 		err := putRawUnminedInput(nsUnminedInputs, k, rec.Hash[:])
 		if err != nil {
